@@ -616,8 +616,12 @@ class _PartialVarintError(EOFError):
 
 def _read_exactly(stream: "SupportsRead[bytes]", size: int) -> bytes:
     data = stream.read(size)
-    if len(data) != size:
-        raise EOFError("Stream ended unexpectedly in the middle of a field.")
+    while len(data) < size:
+        # raw streams (pipes, sockets) may return fewer bytes than requested
+        chunk = stream.read(size - len(data))
+        if not chunk:
+            raise EOFError("Stream ended unexpectedly in the middle of a field.")
+        data += chunk
     return data
 
 
